@@ -1,8 +1,8 @@
 CONSTANTS
   w1 = w1
   w2 = w2
-  Wakers = {w1}
-  Target <- TgtQ1
+  Wakers = {}
+  Target <- TgtNone
   Tasks = {"t1"}
   QCap = 1
   Mode = "external"
@@ -14,10 +14,10 @@ CONSTANTS
   Hosts <- BothHosts
   Muts = {"none"}
   Ops = {"o1"}
-  Timers = {}
+  Timers = {"s1"}
   Jobs = {}
-  Owner <- OwnQ1
+  Owner <- OwnQT
   AnyTurn = TRUE
 SPECIFICATION XFairSpec
-INVARIANTS XTypeOK PendingBound TypeOK RealSafe CtlClearAfterPoll CtlIgnoreFlush CtlNoTimeout CtlNoFlush CtlDrainAfterBlocking
-PROPERTIES Completes WakeSeen OpSeen
+INVARIANTS XTypeOK PendingBound TypeOK RealSafe FindingStrict
+PROPERTIES Completes OpSeen TimerSeen
